@@ -600,9 +600,28 @@ pub fn main(args: &[String]) {
             v
         };
         let np = o.rng.below(5);
-        let prefix = gen_any(&mut o, np, false);
+        let mut prefix = gen_any(&mut o, np, false);
         let ns = o.rng.below(5);
-        let suffix = gen_any(&mut o, ns, false);
+        let mut suffix = gen_any(&mut o, ns, false);
+        // half of the pairs put the isolate inside a bracket pair of the outer text, after a strong or
+        // numeric character: N0 then inspects "the characters enclosed by the brackets", which must not
+        // include the isolate's content
+        if o.rng.chance(1, 2) {
+            let strongish = ["L", "R", "AL", "EN", "AN"];
+            let st = sym(*o.rng.pick(&strongish));
+            let k = o.rng.below(4);
+            prefix.push(Item::Ch(rep(st, k)));
+            if o.rng.chance(1, 3) { prefix.push(Item::Ch(0x20)); }
+            let round = o.rng.chance(1, 2);
+            let k2 = o.rng.below(4);
+            prefix.push(Item::Ch(rep(sym(if round { "(" } else { "[" }), k2)));
+            if o.rng.chance(1, 4) { let s = *o.rng.pick(&nb_syms); if !["LRI", "RLI", "FSI", "PDI", "(", ")", "[", "]"].contains(&REPS[s].0) { prefix.push(Item::Ch(rep(s, k))); } }
+            let mut suf2 = Vec::new();
+            if o.rng.chance(1, 4) { let s = *o.rng.pick(&nb_syms); if !["LRI", "RLI", "FSI", "PDI", "(", ")", "[", "]"].contains(&REPS[s].0) { suf2.push(Item::Ch(rep(s, k2))); } }
+            suf2.push(Item::Ch(rep(sym(if round { ")" } else { "]" }), k2)));
+            suf2.extend(suffix.iter().cloned());
+            suffix = suf2;
+        }
         let init = Item::Ch(0x2066 + o.rng.below(2) as u32);
         let c1 = gen_content(&mut o);
         let c2 = gen_content(&mut o);
